@@ -705,7 +705,7 @@ func init() {
 			"non-trivial = pattern with at least one nil and one element (flat) / tree with at least one nested container; distinct = (pattern, limit, options) or tree description.",
 		Assumptions: []string{"element values are unique, so every surviving element identifies its origin"},
 		Floors: func(string) map[string]int64 {
-			return map[string]int64{"judged": 10000, "trees.nested.with-containers": 500, "patterns.random-long": 1000, "patterns.long-run-below-large-limit": 200}
+			return map[string]int64{"judged": 10000, "towers": 8, "patterns.another-magnitude": 15, "cases.with-bystander-goroutines": 1200, "trees.nested.with-containers": 500, "patterns.random-long": 1000, "patterns.long-run-below-large-limit": 200}
 		},
 	})
 	RegisterAux("c19table", C19Table)
